@@ -111,6 +111,14 @@ def factories():
     return F
 
 
+def _listed_on(m, pi):
+    """Matrix, in the register 0..n-1, of the gate with canonical matrix m whose k-th qubit is register wire pi[k]."""
+    n = len(pi)
+    inv = [pi.index(r) for r in range(n)]
+    t = np.asarray(m).reshape([2] * (2 * n))
+    return np.transpose(t, inv + [n + k for k in inv]).reshape(1 << n, 1 << n)
+
+
 def _close(a, b, tol=TOL):
     a, b = np.asarray(a), np.asarray(b)
     return a.shape == b.shape and np.allclose(a, b, atol=tol, rtol=0)
@@ -138,12 +146,14 @@ def numeric_claim(attr, fac, rng, reps):
         elif attr in ("symmetric_over_all_wires", "symmetric_over_control_wires"):
             if attr == "symmetric_over_control_wires" and nw < 2:
                 return n, "a controlled operation needs at least two wires"
-            m = _mat(make(p, w), w)
+            # the canonical matrix (no wire_order: Operator.matrix(wire_order) itself consults symmetric_over_all_wires and
+            # skips the permutation for listed names) re-embedded on the permuted wire listing by an independent routine
+            m = np.asarray(make(p, w).matrix())
             perms = itertools.permutations(w) if attr == "symmetric_over_all_wires" else \
                 [list(pp) + [w[-1]] for pp in itertools.permutations(w[:-1])]
             for pi in perms:
                 n += 1
-                if not _close(_mat(make(p, list(pi)), w), m):
+                if not _close(_listed_on(m, list(pi)), m):
                     return n, f"matrix changes when the wires are listed as {list(pi)} (parameters {p})"
         elif attr == "diagonal_in_z_basis":
             m = _mat(make(p, w), w)
